@@ -819,6 +819,24 @@ class C15(PropBase):
             got = [(x.get("function"), x.get("file"), x.get("line")) for x in inl[-len(want):]]
             if got != want:
                 return "threads[%d].frames[%d].inlines ends with %r, the state's innermost-first list ends with %r" % (ti, fi, got, want)
+        # modules[].version (VS_FIXEDFILEINFO as Win32 documents it: HIWORD.LOWORD of dwFileVersionMS / LS; ELF-style words elsewhere; only
+        # when dwSignature = 0xFEEF04BD and dwStrucVersion = 0x00010000) for the module whose version_info directive `ver` set
+        vers = {}
+        for d, a in st:
+            if d == "ver":
+                vers[int(a[0])] = [int(t) for t in a[1:7]]
+        dm = doc.get("modules") or []
+        for i, (sg, sv, fhi, flo, phi, plo) in vers.items():
+            if i >= len(dm):
+                continue
+            if sg != 0xFEEF04BD or sv != 0x10000:
+                want_v = None
+            elif (doc.get("system_info") or {}).get("os") in ("Windows NT", "Mac OS X", "iOS"):
+                want_v = "%d.%d.%d.%d" % (fhi >> 16, fhi & 0xffff, flo >> 16, flo & 0xffff)
+            else:
+                want_v = "%d.%d.%d.%d" % (fhi, flo, phi, plo)
+            if dm[i].get("version") != want_v:
+                return "modules[%d].version = %r, its VS_FIXEDFILEINFO (%#x, %#x, %#x, %#x, %#x, %#x) reads %r" % (i, dm[i].get("version"), sg, sv, fhi, flo, phi, plo, want_v)
         # lsb_release: each member is the value of its own key of the dump's lsb-release text (quotes removed)
         if "LSB" in xt and xt[xt.index("LSB") + 1] != "-" and doc.get("lsb_release") is not None:
             kv = {}
